@@ -756,6 +756,8 @@ class Interp:
                 b = a
             elif isinstance(b, Obj) and isinstance(a, Residual) and a.text == b.name:
                 a = b
+            if op in (ast.In, ast.NotIn) and isinstance(b, (list, tuple, dict, set, str)) and len(b) == 0:
+                return op is ast.NotIn
             # builtin type objects (from type(x) on a concrete value, or the names int/str/...)
             _tn = ("int", "str", "float", "bool", "list", "dict", "tuple", "set", "NoneType", "bytes")
             if isinstance(a, Residual) and isinstance(b, Residual) and a.text in _tn and b.text in _tn and op in (ast.Is, ast.Eq, ast.IsNot, ast.NotEq):
